@@ -44,8 +44,15 @@ def gen_case(rng, allow=None, n_max=6, deviations=False):
             # known C08 finding: surplus may stay buffered and poison the next exchange on the connection;
             # an overrun is therefore always the last exchange of a WARC workload sequence
             break
-    return {'config': gen_config(rng), 'seq': seq, 'seg_seed': rng.randrange(1 << 30),
+    case = {'config': gen_config(rng), 'seq': seq, 'seg_seed': rng.randrange(1 << 30),
             'seg_mode': rng.choice(['whole', 'bytes', 'random', 'random', 'cut'])}
+    if rng.random() < 0.2:
+        case['ftp'] = [{'url': 'ftp://f.test/dir%d/' % i + ('' if listing else 'file%d.bin' % i), 'listing': listing,
+                        'data': list(b'-rw-r--r-- 1 u g 5 Jan  1 12:00 a.txt\r\n' if listing else
+                                     bytes(rng.randrange(256) for _ in range(rng.randrange(0, 200)))),
+                        'multiline_welcome': rng.random() < 0.5}
+                       for i, listing in enumerate([rng.random() < 0.4 for _ in range(rng.choice([1, 2]))])]
+    return case
 
 
 def pieces_for(rng, r, mode):
@@ -64,6 +71,52 @@ def pieces_for(rng, r, mode):
         out.append(wire[prev:p])
         prev = p
     return out
+
+
+def run_ftp_sessions(recorder, specs):
+    '''FTP file / listing transfers recorded by the same recorder (control-conversation + resource records).'''
+    import asyncio
+    import io
+    from harness import netsim, ftpsim
+    from wpull.network.pool import ConnectionPool
+    from wpull.protocol.ftp.client import Client
+    from wpull.protocol.ftp.request import Request
+    results = []
+
+    async def main():
+        net = netsim.Net().install()
+        try:
+            for spec in specs:
+                script = ftpsim.FTPScript()
+                script.data = [bytes(spec['data'])]
+                if spec.get('multiline_welcome'):
+                    script.welcome = b'220-hello\r\n welcome to sim\r\n220 ready\r\n'
+                net.peers.clear()
+                ftpsim.install(net, script)
+                pool = ConnectionPool(resolver=netsim.StaticResolver({'f.test': '127.0.3.1'}))
+                client = Client(connection_pool=pool)
+                recorder.listen_to_ftp_client(client)
+                request = Request(spec['url'])
+                buf = io.BytesIO()
+                try:
+                    session = client.session()
+                    with session:
+                        if spec['listing']:
+                            await session.start_listing(request)
+                            await session.download_listing(buf)
+                        else:
+                            await session.start(request)
+                            await session.download(buf)
+                    results.append({'url': spec['url'], 'error': None, 'data': bytes(spec['data'])})
+                except Exception as e:
+                    results.append({'url': spec['url'], 'error': type(e).__name__})
+                for _ in range(20):
+                    await asyncio.sleep(0)
+                client.close()
+        finally:
+            net.uninstall()
+    netsim.run(main(), timeout=60)
+    return results
 
 
 class StubVisits(object):
@@ -117,6 +170,8 @@ def run_case(case, keep_dir=None):
 
             outcomes, peer, net = httpdrive.run_sequence(
                 responses, recorder_setup=lambda client: recorder.listen_to_http_client(client))
+            if case.get('ftp') and rnd_index == len(rounds) - 1:
+                obs['ftp'] = run_ftp_sessions(recorder, case['ftp'])
             recorder.close()
             for i, (r, resp) in enumerate(zip(rnd, responses)):
                 out = outcomes[i] if i < len(outcomes) else {'error': 'NOT-RUN'}
